@@ -1,3 +1,4 @@
+import TemplVerif.Generated.Skeletons
 import TemplVerif.Model.Children
 /-
 C13 — a component receives exactly the child block passed at its call site.
@@ -68,5 +69,31 @@ theorem C13_sibling (fuel : Nat) (c : Term) (m : Nat) (inner b : Term) (o : List
     (before the repair `@templ.Flush() { @templ.Flush() }` recursed without bound). -/
 example : (exec 8 (.withBlock .flush 1 .flush) {}).2.1 = lit "<wb>" ++ tag "m" 1 ++ lit "</wb>" := by
   simp [exec, slot]
+
+-- BEGIN transcription pins (written by tools/mkpins.py)
+/-- T1, transcription pins: the control structure and calls (extract/skeleton.go) of the functions whose models
+    were written by hand are the ones the models were transcribed from:
+      flush.go FlushComponent.Render
+      generator/generator.go generator.writeBlockTemplElementExpression
+      generator/generator.go generator.writeCallTemplateExpression
+      generator/generator.go generator.writeChildrenExpression
+      generator/generator.go generator.writeTemplElementExpression
+      join.go Join
+      runtime.go ClearChildren
+      runtime.go GetChildren
+      runtime.go WithChildren
+    A change of what one of them calls or how it branches breaks this theorem; the check then searches for a
+    failing input and reports either that or `no-failing-input-found`. -/
+theorem C13_transcription_pinned :
+    Generated.skel_flush_Render = 5949231320098095056 ∧
+    Generated.skel_gen_writeBlockTemplElementExpression = 11326746197513157036 ∧
+    Generated.skel_gen_writeCallTemplateExpression = 9594183451043399340 ∧
+    Generated.skel_gen_writeChildrenExpression = 351564412331989652 ∧
+    Generated.skel_gen_writeTemplElementExpression = 561756907016755889 ∧
+    Generated.skel_join_Join = 2710727602932544168 ∧
+    Generated.skel_rt_ClearChildren = 13265255789325131257 ∧
+    Generated.skel_rt_GetChildren = 7574763116782928735 ∧
+    Generated.skel_rt_WithChildren = 16854738734032380008 := by decide
+-- END transcription pins
 
 end TemplVerif.Props.C13
